@@ -4,14 +4,36 @@
 # meta.json, require exit 1 with a VIOLATION line.  Writes /verif/evidence/sensitivity.json.  Exit 0 iff all are detected.
 cd /verif
 BUD=${1:-30}
+# optional: SHARD=k/n handles every n-th change and writes /dev/shm/sens-k.json; "merge" combines the shards into evidence/sensitivity.json
+if [ "$1" = merge ]; then
+python3 - <<'PY'
+import json,glob,subprocess,sys
+res=[]
+for f in sorted(glob.glob('/dev/shm/sens-*.json')): res+=json.load(open(f))['results']
+res.sort(key=lambda r:r['id'])
+bud=json.load(open(sorted(glob.glob('/dev/shm/sens-*.json'))[0]))['budget_s_per_check']
+ok=all(r['detected'] is not False for r in res)
+json.dump({'tree':subprocess.run(['git','-C','/repo','log','--format=%h','-1'],capture_output=True,text=True).stdout.strip(),'budget_s_per_check':bud,'seeded_changes':len(res),'detected':sum(1 for r in res if r['detected']),'outside_property':sum(1 for r in res if r['detected'] is None),'not_detected':[r['id'] for r in res if r['detected'] is False],'results':res},open('/verif/evidence/sensitivity.json','w'),indent=1)
+print(len(res),'changes,',sum(1 for r in res if r['detected']),'detected; not detected:',[r['id'] for r in res if r['detected'] is False])
+sys.exit(0 if ok else 1)
+PY
+exit $?
+fi
 python3 - "$BUD" <<'PY'
 import json,os,subprocess,sys,re,time
 bud=sys.argv[1]
 res=[]; ok=True
-for d in sorted(os.listdir('/verif/seeded')):
+shard=os.environ.get('SHARD','')
+sk,sn=(int(x) for x in shard.split('/')) if shard else (0,1)
+outp='/dev/shm/sens-%d.json'%sk if shard else '/verif/evidence/sensitivity.json'
+for di,d in enumerate(sorted(os.listdir('/verif/seeded'))):
+    if di%sn!=sk: continue
     mp='/verif/seeded/%s/meta.json'%d
     if not os.path.exists(mp): continue
     m=json.load(open(mp))
+    if m.get('outside_property'):
+        # kept for the record: on inspection the change does not violate the property as stated (see its meta.json)
+        res.append({'id':d,'breaks':m['breaks_property'],'detected':None,'note':'outside the property as stated, not expected to be reported'}); continue
     props=re.findall(r'C\d\d',m['detected_by'])
     props=list(dict.fromkeys(props))[:2] or [m['breaks_property']]
     W='/tmp/senswt-%d'%os.getpid()
@@ -32,6 +54,6 @@ for d in sorted(os.listdir('/verif/seeded')):
     res.append({'id':d,'breaks':m['breaks_property'],'checks_tried':props,'detected_by':det,'detected':det is not None,'wall_s':round(time.time()-t0,1)})
     print(d,'->',det); sys.stdout.flush()
     if det is None: ok=False
-json.dump({'tree':subprocess.run(['git','-C','/repo','log','--format=%h','-1'],capture_output=True,text=True).stdout.strip(),'budget_s_per_check':int(bud),'seeded_changes':len(res),'detected':sum(1 for r in res if r['detected']),'results':res},open('/verif/evidence/sensitivity.json','w'),indent=1)
+json.dump({'tree':subprocess.run(['git','-C','/repo','log','--format=%h','-1'],capture_output=True,text=True).stdout.strip(),'budget_s_per_check':int(bud),'seeded_changes':len(res),'detected':sum(1 for r in res if r['detected']),'outside_property':sum(1 for r in res if r['detected'] is None),'results':res},open(outp,'w'),indent=1)
 sys.exit(0 if ok else 1)
 PY
